@@ -92,6 +92,7 @@ class MasterTruth:
         self.down = {}            # server -> [smin, smax] (observation based)
         self.last_not_down = {}   # server -> time last observed not down
         self.view = set()         # presence as the master has been told
+        self.blacklist = []       # blackout patterns the master was shown
         self.admin_down = set()   # servers an admin 'down' event put down
         #                           (and no later event / presence change
         #                           brought back)
@@ -211,6 +212,13 @@ class MasterTruth:
     def down_interval(self, sname):
         iv = self.down.get(sname)
         return tuple(iv) if iv else None
+
+    def blacklisted(self, aname):
+        """By the patterns the master has been shown (at start, and with
+        each apps_blacklist event it handled)."""
+        import fnmatch
+        base = aname.split('#')[0]
+        return any(fnmatch.fnmatch(base, pat) for pat in self.blacklist)
 
     def absent_interval(self, sname):
         """When the master was told that the server is gone (it handled a
@@ -484,6 +492,7 @@ class World:
                 truth.groups[name] = data.get('count', 0)
         truth.view = set(zk.children(z.SERVER_PRESENCE) or [])
         truth.absent = {}
+        truth.blacklist = list(self._zk_obj(z.BLACKEDOUT_APPS) or [])
         truth.admin_down = set()
         truth.frozen = set()
         for name in truth.srv:
@@ -555,6 +564,9 @@ class World:
                 elif resource == 'apps':
                     for name in payload or []:
                         self._truth_app(name)
+                elif resource == 'apps_blacklist':
+                    truth.blacklist = list(
+                        self._zk_obj(z.BLACKEDOUT_APPS) or [])
                 elif resource == 'servers':
                     names = payload or sorted(
                         set(truth.srv) ^ set(self.zk.children(z.SERVERS)
@@ -1619,7 +1631,12 @@ class Generator:
 
     def next_op(self, world):
         if self.follow:
-            return self.follow.pop(0)
+            item = self.follow.pop(0)
+            if 'gen' in item:
+                # a scenario step that is decided when its turn comes
+                return getattr(self, 'g_' + item['gen'])(
+                    world, staged=True) or {'op': 'drain'}
+            return item
         for _ in range(30):
             kind = rngmod.weighted(self.rng, self.weights)
             op = getattr(self, 'g_' + kind)(world)
@@ -1722,6 +1739,19 @@ class Generator:
             name = 's%d' % self.nsrv
         spec = server_spec(rng, cfg, name)
         spec['op'] = 'srv_set'
+        old = world._zk_obj(z.path.server(name)) if name in names else None
+        if old and old.get('parent') and rng.random() < 0.3:
+            # only the server's place in the topology changes
+            racks = [r for _p, rs in cfg['topology'] for r in rs
+                     if r != old['parent']]
+            if racks:
+                spec = {'op': 'srv_set', 'name': name,
+                        'parent': rng.choice(racks),
+                        'partition': old.get('partition') or '_default',
+                        'memory': old.get('memory'), 'cpu': old.get('cpu'),
+                        'disk': old.get('disk'),
+                        'traits': old.get('traits') or [],
+                        'up_since': old.get('up_since')}
         return spec
 
     def g_srv_delete(self, world):
@@ -1953,6 +1983,100 @@ class Generator:
             {'op': 'drain'}, {'op': 'master_cycle'}])
         return spec
 
+    def g_detach_then_touch_server(self, world):
+        """A top level bucket with loaded servers is taken out of the cell,
+        a cycle moves the instances, then one of the detached servers is
+        redefined or deleted, and another cycle runs."""
+        stored = world.stored_placement()
+        per_pod = {}
+        for pod, racks in self.config['topology']:
+            if world.zk.nodes.get(z.path.cell(pod)) is None:
+                continue
+            for recs in stored.values():
+                for srv, _d in recs:
+                    data = world._zk_obj(z.path.server(srv)) or {}
+                    if data.get('parent') in racks:
+                        per_pod.setdefault(pod, set()).add(srv)
+        if not per_pod:
+            return None
+        pod = self.rng.choice(sorted(per_pod))
+        srv = self.rng.choice(sorted(per_pod[pod]))
+        touch = {'op': 'srv_delete', 'name': srv}
+        if self.rng.random() < 0.5:
+            touch = server_spec(self.rng, self.config, srv)
+            touch['op'] = 'srv_set'
+        self.follow.extend([
+            {'op': 'drain'}, {'op': 'master_cycle'}, touch, {'op': 'drain'},
+            {'op': 'master_cycle', 'focus': True},
+            {'op': 'cell_bucket', 'name': pod, 'present': True}])
+        return {'op': 'cell_bucket', 'name': pod, 'present': False}
+
+    def g_reparent_loaded(self, world, staged=False):
+        """Only the place of a loaded server in the topology changes (what
+        masterapi.update_server_parent writes): its instances are put back
+        one by one, under the limits of the new rack and pod.  Preferably a
+        move into a rack or pod that already holds instances of an affinity
+        the server carries, with a limit declared at that level."""
+        stored = world.stored_placement()
+        pod_of = {r: p for p, rs in self.config['topology'] for r in rs}
+        on = {}                       # server -> [affinity, ...]
+        for app, recs in stored.items():
+            man = world._zk_obj(z.path.scheduled(app)) or {}
+            for srv, _d in recs:
+                on.setdefault(srv, []).append(
+                    (man.get('affinity'), man.get('affinity_limits') or {}))
+        rack_of = {}
+        for srv in on:
+            data = world._zk_obj(z.path.server(srv)) or {}
+            if data.get('parent'):
+                rack_of[srv] = data['parent']
+        good, any_ = [], []
+        for srv in sorted(rack_of):
+            for rack in sorted(pod_of):
+                if rack == rack_of[srv] or \
+                        world.zk.nodes.get(z.path.bucket(rack)) is None:
+                    continue
+                any_.append((srv, rack))
+                for aff, limits in on[srv]:
+                    for other in sorted(rack_of):
+                        if other == srv:
+                            continue
+                        same_rack = rack_of[other] == rack
+                        same_pod = pod_of.get(rack_of[other]) == \
+                            pod_of.get(rack)
+                        if any(a == aff for a, _l in on[other]) and (
+                                (same_rack and 'rack' in limits) or
+                                (same_pod and 'pod' in limits and
+                                 pod_of.get(rack_of[srv]) != pod_of.get(rack))):
+                            good.append((srv, rack))
+        if not good and not staged:
+            # set the stage: a few small instances of an affinity that
+            # declares a rack or pod limit, placed, then the move
+            limited = sorted(a for a, l in self.config['aff_limits'].items()
+                             if 'rack' in l or 'pod' in l)
+            if limited:
+                aff = self.rng.choice(limited)
+                lim = self.config['aff_limits'][aff]
+                fill = min(lim[k] for k in ('rack', 'pod') if k in lim) + 1
+                self.follow.extend([{'op': 'drain'}, {'op': 'master_cycle'},
+                                    {'gen': 'reparent_loaded'}])
+                return {'op': 'app_create', 'app_id': aff, 'manifest': {
+                    'memory': '256M', 'cpu': '10%', 'disk': '256M',
+                    'affinity': aff,
+                    'affinity_limits': self.config['aff_limits'][aff]},
+                        'count': max(2, min(5, fill))}
+        pool = good if good and self.rng.random() < 0.8 else any_
+        if not pool:
+            return None
+        name, rack = self.rng.choice(pool)
+        old = world._zk_obj(z.path.server(name)) or {}
+        self.follow.extend([{'op': 'drain'}, {'op': 'master_cycle'}])
+        return {'op': 'srv_set', 'name': name, 'parent': rack,
+                'partition': old.get('partition') or '_default',
+                'memory': old.get('memory'), 'cpu': old.get('cpu'),
+                'disk': old.get('disk'), 'traits': old.get('traits') or [],
+                'up_since': old.get('up_since')}
+
     def g_undefined_server_event(self, world):
         """The definition of a server that holds instances is deleted and the
         running master is told with the list-less 'servers' event; the next
@@ -2089,6 +2213,7 @@ OP_WEIGHTS = [
     ('undefined_server_failover', 5), ('stale_record_failover', 3),
     ('m_probe', 0), ('bucket_deleted_failover', 2),
     ('undefined_server_event', 4), ('reparent_to_undefined_rack', 2),
+    ('detach_then_touch_server', 5), ('reparent_loaded', 5),
 ]
 
 
@@ -2129,9 +2254,10 @@ def gen_allocations(rng, cfg):
                     'rank': rng.choice([100, 100, 50, 10, 0]),
                     'rank_adjustment': rng.choice([0, 0, 10]),
                     'max_utilization': rng.choice([None, None, 1.0, 2.0]),
-                    'traits': ([rng.choice(cfg['traits'])]
-                               if cfg['traits'] and rng.random() < 0.2
-                               else []),
+                    'traits': ([rng.choice(cfg['traits'] +
+                                           cfg.get('node_traits', []))]
+                               if (cfg['traits'] or cfg.get('node_traits'))
+                               and rng.random() < 0.25 else []),
                     'assignments': [],
                 }
                 for proid in cfg['proids']:
